@@ -47,7 +47,8 @@ pub fn ref_parse(s: &str) -> RefName {
             if cp == 0x7F {
                 *dc = true;
             }
-            v.push((cp as u8).to_ascii_uppercase());
+            // "upper-cases them": every letter of ISO-8859-1 that has an upper-case partner in it
+            v.push(latin1_upper(cp as u8));
         }
         Some(v)
     };
